@@ -6,6 +6,8 @@ use serde_json::Value;
 
 pub mod bcommon;
 pub mod c01;
+pub mod c02;
+pub mod c03;
 pub mod c04;
 pub mod c05;
 pub mod c06;
@@ -92,6 +94,8 @@ pub fn replay_space<S: Space>(space: &S, f: &Failure, prop: &str) -> i32 {
 pub fn run_check(id: &str, tier: &str) -> i32 {
     match id {
         "C01" => c01::run(tier),
+        "C02" => c02::run(tier),
+        "C03" => c03::run(tier),
         "C04" => c04::run(tier),
         "C05" => c05::run(tier),
         "C06" => c06::run(tier),
@@ -125,6 +129,8 @@ pub fn run_replay(path: &str) -> i32 {
     let f: Failure = serde_json::from_value(v["failure"].clone()).unwrap();
     match prop.as_str() {
         "C01" => c01::replay(&f),
+        "C02" => c02::replay(&f),
+        "C03" => c03::replay(&f),
         "C04" => c04::replay(&f),
         "C05" => c05::replay(&f),
         "C06" => c06::replay(&f),
